@@ -91,12 +91,36 @@ type vmgrActor struct {
 // ---- world -----------------------------------------------------------------------------------
 
 // patience for things that normally take microseconds (a closed poller's loop closing its descriptors,
-// a probe's answer, a Pick returning).  Generous, because the machine may be heavily loaded; after the
-// first expiry in this process (a finding is reported anyway) the remaining waits are short.
-var vmgrPatience = 20 * time.Second
+// a probe's answer, a Pick returning).  Generous and scaled with the machine's load, because an expiry is
+// reported as a finding; after three expiries the process gives up (the replies so far show the problem).
+var vmgrPatience = 6 * time.Second
+var vmgrExpiries int
+
+func vmgrInitPatience() {
+	b, err := os.ReadFile("/proc/loadavg")
+	if err != nil {
+		return
+	}
+	f := strings.Fields(string(b))
+	if len(f) == 0 {
+		return
+	}
+	l, err := strconv.ParseFloat(f[0], 64)
+	if err != nil {
+		return
+	}
+	k := l / float64(runtime.NumCPU())
+	if k < 1 {
+		k = 1
+	}
+	if k > 8 {
+		k = 8
+	}
+	vmgrPatience = time.Duration(float64(6*time.Second) * k)
+}
 
 func vmgrExpired() {
-	vmgrPatience = 300 * time.Millisecond
+	vmgrExpiries++
 }
 
 type vmgrWorld struct {
@@ -1080,6 +1104,7 @@ func VerifMgrHMain(args []string) int {
 	opsOut := fs.String("ops-out", "", "")
 	implOut := fs.String("impl-out", "", "")
 	replay := fs.String("replay", "", "")
+	deadline := fs.Int("deadline", 0, "stop generating new scenarios after this many seconds (0: never)")
 	if err := fs.Parse(args); err != nil {
 		return 2
 	}
@@ -1107,6 +1132,7 @@ func VerifMgrHMain(args []string) int {
 	defer out.ops.Flush()
 	defer out.impl.Flush()
 	logger.SetOutput(devNull{})
+	vmgrInitPatience()
 	vmgrWarm()
 	if *replay != "" {
 		return vmgrReplay(*replay, out)
@@ -1117,7 +1143,16 @@ func VerifMgrHMain(args []string) int {
 	}
 	rng := rand.New(rand.NewSource(*seed))
 	w := &vmgrWorld{closed: map[int]bool{}, waited: map[int]bool{}}
+	t0 := time.Now()
 	for i := 0; i < *n; i++ {
+		if vmgrExpiries >= 3 {
+			fmt.Fprintln(os.Stderr, "mgrh: giving up after repeated time-outs (the replies so far already show the problem)")
+			break
+		}
+		if *deadline > 0 && time.Since(t0) > time.Duration(*deadline)*time.Second {
+			fmt.Fprintf(os.Stderr, "mgrh: deadline reached after %d of %d scenarios\n", i, *n)
+			break
+		}
 		switch *mode {
 		case "seq":
 			vmgrGenSeq(w, out, rng, *nops)
